@@ -186,6 +186,18 @@ claim("C18", "exploration",
       "in any order.",
       "DESIGN.md §4 C18")
 
+claim("C07", "exploration",
+      "structure-aware protocol fuzzing (Hypothesis) from a raw reference peer with identifier harvesting, against a real "
+      "default-configuration Connection; oracle = canaries, provenance audit of every unboxed object, pickle / eval / "
+      "os.system tripwires, import canary, policy-denial check per by-name request, containment of a second connection",
+      "The generator is a grammar over the protocol (all message kinds, all 20 handlers with well-typed and ill-typed "
+      "arguments, every boxing label) that indexes into identifiers disclosed by earlier replies, taken from another "
+      "connection, released, or forged from real addresses, so deep states are reached by construction. Security "
+      "properties are sampled, never proven.",
+      "Operations the protocol grants on any held reference (call, repr, str, hash, dir, inspect, instancecheck, buffiter) "
+      "are not canaries; resource exhaustion is out of scope; no coverage-guided byte-level campaign for this property.",
+      "DESIGN.md §4 C07")
+
 NOT_YET = "check not built yet in this revision (see DESIGN.md §8 build order)"
 
 
